@@ -2,5 +2,10 @@
 #![allow(unused_imports, dead_code)]
 use super::*;
 
+/// offsets of a hash-table file with `meta_pages` meta-byte pages (for harnesses of bitbox::recover)
+pub(crate) fn kani_offsets(meta_pages: u64) -> HTOffsets {
+    HTOffsets { data_page_offset: meta_pages }
+}
+
 #[cfg(test)]
 include!("/verif/.build/playback/bitbox_ht_file.inc");
